@@ -314,6 +314,60 @@ def run(ctx, only_entry=False):
                    "the grammar guarantees what the consumer expects (no expect/unwrap/unreachable!/slice can fail)",
                    "%s:%s" % (b.file, s["ln"]), "%s %s" % (s["kind"], s["detail"]),
                    "A4 over every child alternative of every rule the function is called with")
+    # ---- clause 1b: the rejection path.  A syntax error reported by pest is converted into the crate's error type by code
+    # that indexes the list of expected rules; it is interpreted for every length class of that list (the code compares the
+    # length with small constants only, so lengths 0..5 cover every ordering) and for a custom error ---------------------------
+    EF = "<L::parser::implementation::error::ParserError as core::convert::From<pest::error::Error<L::parser::implementation::Rule>>>::from"
+    efb = p.need_body(EF)
+    efns = sorted(k for k in p.bodies if k == EF or k.startswith(EF + "::"))
+    pe = p.need_type("pest::error::Error")
+    pev = p.need_type("pest::error::ErrorVariant")
+    rule_t = p.need_type("L::parser::implementation::Rule")
+    any_rule = En({i: () for i in range(len(rule_t["variants"]))})
+    vi_parse = [i for i, v in enumerate(pev["variants"]) if v["n"] == "ParsingError"][0]
+    vi_custom = [i for i, v in enumerate(pev["variants"]) if v["n"] == "CustomError"][0]
+    pfields = [f["n"] for f in pev["variants"][vi_parse]["fields"]]
+    err_fail = {}
+    err_unk = []
+    cases = [("expected-%d" % k, En({vi_parse: tuple(Arr([any_rule] * k) if f == "positives" else Arr([any_rule] * (k % 2))
+                                                  for f in pfields)})) for k in range(6)]
+    cases.append(("custom", En({vi_custom: (Opaque("MESSAGE"),)})))
+    for cname, variant in cases:
+        Ie = absint.Interp(p)
+        Ie.unroll = 12
+        # (writing into a String cannot fail: <String as fmt::Write> always returns Ok)
+        Ie.fn_overrides["core::fmt::Write::write_fmt"] = lambda I_, st, depth, callee, args, b_, ln: En({0: (Agg(()),)})
+        Ie.fn_overrides["alloc::fmt::format"] = lambda I_, st, depth, callee, args, b_, ln: Opaque("formatted")
+        Ie.fn_overrides["alloc::fmt::format::format_inner"] = lambda I_, st, depth, callee, args, b_, ln: Opaque("formatted")
+        ev_ = Agg([variant if f["n"] == "variant" else TOP for f in pe["variants"][0]["fields"]])
+        ste = absint.State()
+        try:
+            Ie.run_body(efb, [ev_], ste, 0)
+        except absint.AnalysisLimit as e:
+            err_unk.append((cname, str(e)))
+            continue
+        for e in Ie.events:
+            if e.in_log or e.body not in efns:
+                continue
+            if e.kind == "panic" or (e.kind == "assert" and e.info["may_fail"]):
+                err_fail.setdefault((e.body, e.bb if e.kind == "panic" else e.info["bb"]), []).append((cname, e))
+            elif e.kind in ("wild_write", "unknown_call_value", "recursion_or_depth", "unknown_terminator"):
+                err_unk.append((cname, repr(e)))
+            elif e.kind == "unknown_extern" and not str(e.info).startswith(("core::fmt", "alloc::fmt", "<")):
+                err_unk.append((cname, repr(e)))
+    chk.ob("error-path/analysable", not err_unk, "the conversion of a pest error is interpreted without an unmodelled construct",
+           efb.loc(), "%s" % err_unk[:3])
+    esites = panics.enumerate_sites(p, efns)
+    chk.floor("panic-capable sites on the rejection path", len(esites), 3)
+    for s_ in esites:
+        if s_["in_log"]:
+            continue
+        fl = err_fail.get((s_["fn"], s_["bb"]))
+        chk.ob("error-path/site/%s" % s_["key"], not fl,
+               "rejecting a text never panics: building the error message is safe for every number of expected rules",
+               "%s:%s" % (p.bodies[s_["fn"]].file, s_["ln"]),
+               ("can fail for %s: %s" % (fl[0][0], _short(fl[0][1].info))) if fl else "%s %s" % (s_["kind"], s_["detail"]),
+               "A4 of the From<pest::error::Error> conversion for 0..5 expected rules and a custom message")
     for kind, rule, detail, ok in pm.lex_obligations:
         pass
     seen_lex = {}
@@ -324,6 +378,8 @@ def run(ctx, only_entry=False):
                "the lexical class of the rule makes the numeric conversion / slice infallible", "grammar rule %s" % rule, detail)
 
     # ---- clause 4: rule -> AST ---------------------------------------------------------
+    dropped = []
+    nop_total = [0]
     it = p.need_type(INSTR)
     vnames = [v["n"] for v in it["variants"]]
     for rule, (variant, mnemonic) in tab["instruction"].items():
@@ -362,6 +418,33 @@ def run(ctx, only_entry=False):
                 chk.ob("ast/%s/%s" % (rule, desc.split(" ")[0]), ok and order_ok,
                        "the rule is turned into the AST variant of the same instruction, operands in written order",
                        p.bodies[fn].loc(), "built %s (expected Instruction::%s), operand child order ok: %s" % (det, variant, order_ok))
+                # every operand the grammar admits reaches the AST: none is skipped (a consumer that selects its children by
+                # rule name silently drops an operand of a kind the grammar was widened to accept)
+                n_ops = sum(1 for k_ in _kids if not str(k_).startswith("sep_"))
+                used = set()
+
+                def _tags(v_):
+                    if isinstance(v_, Opaque) and isinstance(v_.tag, tuple) and v_.tag and v_.tag[0] == "ast":
+                        used.add(v_.tag[2])
+                    elif isinstance(v_, En):
+                        for fs_ in v_.vs.values():
+                            for x_ in fs_:
+                                _tags(x_)
+                    elif isinstance(v_, (Agg,)):
+                        for x_ in v_.f:
+                            _tags(x_)
+                    elif isinstance(v_, Arr):
+                        for x_ in v_.e:
+                            _tags(x_)
+                _tags(rv)
+                if ok and all(isinstance(u_, int) for u_ in used) and used:
+                    nop_total[0] += 1
+                    if len(used) != n_ops:
+                        dropped.append("%s %s: %d operand children, %d reach Instruction::%s" % (rule, desc, n_ops, len(used), variant))
+    chk.ob("ast/no-operand-dropped", not dropped,
+           "every operand child of an instruction rule is handed to a sub-parser and stored in the AST", "parser/implementation/mod.rs",
+           "; ".join(dropped[:3]) or "%d (rule, alternative) cases with sub-parsed operands" % nop_total[0],
+           "A4 of the consumers: the tagged stand-ins of the sub-parsers found in the built value")
     # the dispatcher maps each instruction alternative to its own handler
     rs = results.get((PI + "parse_instruction", "instruction"), [])
     chk.floor("instruction alternatives dispatched", len(rs), 55)
